@@ -605,13 +605,16 @@ func (x *c08Ctx) runVariant(v c08Variant) {
 					er := ei > 0
 					o := c08Opts{mr, lim, ei, inc}
 					if er {
-						// the scan with a permitted error is itself only approximate
-						b, _ := x.find(v, o, true)
-						if x.wellFormed(b, o, v, "brute") {
-							if ok, why := x.withinError(b, exact, o); !ok {
-								x.fail("eq/maxerror/"+kn+"/brute", "%s, %v", why, o)
+						// the scan with a permitted error is itself only approximate; it visits the
+						// shapes in Go's random map order, so it is repeated a few times
+						for rep := 0; rep < 4; rep++ {
+							b, _ := x.find(v, o, true)
+							if x.wellFormed(b, o, v, "brute") {
+								if ok, why := x.withinError(b, exact, o); !ok {
+									x.fail("eq/maxerror/"+kn+"/brute", "%s, %v", why, o)
+								}
+								x.interiors(b, o, v, "brute")
 							}
-							x.interiors(b, o, v, "brute")
 						}
 					}
 					opt, fl := x.find(v, o, false)
